@@ -15,6 +15,7 @@ computed statuses and — for the loop — all step counts and all get/update fa
 -/
 import NGF.Proofs.StatusRetry
 import NGF.Proofs.StatusLimits
+import NGF.Props.C08Drift
 import NGF.Generated.StatusFacts
 
 namespace NGF.StatusWrite
@@ -330,30 +331,43 @@ theorem reason_pattern_ok : ∀ row ∈ Status.condTable,
     typeOk row.2.1 = true ∧ row.2.1.length ≤ Status.maxType ∧ statusOk row.2.2.1 = true := by
   decide +kernel
 
-/-- NGF policies: with the ancestors collected through `ngfPolicyAncestorsFull` against the status
-the setter then sees, the submitted ancestor list has at most `maxItems` entries. -/
-theorem ancestors_le_16 (c : String) (cur : Status) (targets : List Entry)
-    (hcur : cur.length ≤ Status.maxAncestors) :
-    let s : Setter := ⟨policyKind, c, ngfAttach Status.maxAncestorsConst c cur targets []⟩
-    (s.invoke cur).2.1.length ≤ Status.maxAncestors := by
+/-- NGF policies, graph built from `snap`, write landing on `live`: when other controllers did not add
+foreign ancestors in between, the submitted ancestor list has at most `maxItems` entries. -/
+theorem ancestors_le_16_of_snapshot (c : String) (snap live : Status) (targets : List Entry)
+    (hsnap : snap.length ≤ Status.maxAncestors) (hlive : live.length ≤ Status.maxAncestors)
+    (hnogrow : (foreign c live).length ≤ (foreign c snap).length) :
+    let s : Setter := ⟨policyKind, c, ngfAttach Status.maxAncestorsConst c snap targets []⟩
+    (s.invoke live).2.1.length ≤ Status.maxAncestors := by
   intro s
   have hm : Merging s := by show policyKind.mode ≠ .whole; decide
-  cases hw : (s.invoke cur).2.2 with
-  | false => rw [setter_noop_leaves_object s cur hw]; exact hcur
+  cases hw : (s.invoke live).2.2 with
+  | false => rw [setter_noop_leaves_object s live hw]; exact hlive
   | true =>
-    rw [invoke_out_of_set s cur hw, merged_length hm]
-    have h1 := ngfAttach_length Status.maxAncestorsConst c cur targets []
-    have h2 := foreign_length_le c cur
+    rw [invoke_out_of_set s live hw, merged_length hm]
+    have h1 := ngfAttach_length Status.maxAncestorsConst c snap targets []
+    have h2 := foreign_length_le c snap
     have h3 : Status.maxAncestorsConst ≤ Status.maxAncestors := by decide
     simp only [List.length_nil, Nat.zero_add] at h1
-    show (ngfAttach Status.maxAncestorsConst c cur targets []).length + (foreign c cur).length ≤ _
+    show (ngfAttach Status.maxAncestorsConst c snap targets []).length + (foreign c live).length ≤ _
     omega
 
+/-- NGF policies: with the ancestors collected through `ngfPolicyAncestorsFull` against the status
+the setter then sees — EXPLICIT hypothesis `hsame`: the live object the retry function fetches is the
+snapshot the graph was built from — the submitted ancestor list has at most `maxItems` entries.
+Without `hsame` the statement is false: `ancestors_le_16_needs_same_snapshot`. -/
+theorem ancestors_le_16 (c : String) (snap live : Status) (targets : List Entry) (hsame : live = snap)
+    (hcur : snap.length ≤ Status.maxAncestors) :
+    let s : Setter := ⟨policyKind, c, ngfAttach Status.maxAncestorsConst c snap targets []⟩
+    (s.invoke live).2.1.length ≤ Status.maxAncestors := by
+  subst hsame
+  exact ancestors_le_16_of_snapshot c live live targets hcur hcur (Nat.le_refl _)
+
 /-- BackendTLSPolicy: when `backendTLSPolicyAncestorsFull` says "not full", the one own ancestor fits. -/
-theorem btp_ancestors_le_16 (c : String) (cur : Status) (e : Entry)
-    (hfull : btpFull Status.maxAncestorsConst c cur = false) (hcur : cur.length ≤ Status.maxAncestors) :
+theorem btp_ancestors_le_16 (c : String) (snap cur : Status) (e : Entry) (hsame : cur = snap)
+    (hfull : btpFull Status.maxAncestorsConst c snap = false) (hcur : snap.length ≤ Status.maxAncestors) :
     let s : Setter := ⟨policyKind, c, [e]⟩
     (s.invoke cur).2.1.length ≤ Status.maxAncestors := by
+  subst hsame
   intro s
   have hm : Merging s := by show policyKind.mode ≠ .whole; decide
   cases hw : (s.invoke cur).2.2 with
@@ -378,6 +392,24 @@ example :
 
 private def manyForeign (n : Nat) : Status :=
   (List.range n).map fun i => ⟨"other", ["~", "~", "ns", toString i, "~", "~"], wFor.conds⟩
+
+/-- WITNESS OF FALSITY under LIVE DRIFT (reproduced on the real policy setters, known findings
+`C08:entries-exceed-maxItems:{NGFPolicy,BackendTLSPolicy}:live-drift`): the graph was built from a cached
+policy with 15 foreign ancestors (both "ancestor list is full" checks say: room for one), another
+controller adds a 16th before the write lands; both objects are admissible, the setter runs on the live
+one and submits 17 ancestors. So `ancestors_le_16` / `btp_ancestors_le_16` need `live = snap`. -/
+theorem ancestors_le_16_needs_same_snapshot :
+    ¬ (∀ (c : String) (snap live : Status) (targets : List Entry),
+        snap.length ≤ Status.maxAncestors → live.length ≤ Status.maxAncestors →
+        ((Setter.mk policyKind c (ngfAttach Status.maxAncestorsConst c snap targets [])).invoke live).2.1.length
+          ≤ Status.maxAncestors) ∧
+    btpFull Status.maxAncestorsConst "ngf" (manyForeign 15) = false ∧
+    ((Setter.mk policyKind "ngf" [wOwn]).invoke (manyForeign 16)).2.1.length = Status.maxAncestors + 1 ∧
+    -- …and the foreign entries of the live object are all still there (the write is rejected, nothing is lost)
+    foreign "ngf" ((Setter.mk policyKind "ngf" [wOwn]).invoke (manyForeign 16)).2.1 = manyForeign 16 := by
+  refine ⟨fun h => ?_, by decide, by decide, by decide⟩
+  have := h "ngf" (manyForeign 15) (manyForeign 16) [wOwn] (by decide) (by decide)
+  revert this; decide
 
 /-- WITNESS OF FALSITY (reproduced on the real route and snippets-filter setters): `parents`
 (`controllers`) may exceed the CRD's maxItems — a previous status that is itself admissible (32
